@@ -58,7 +58,7 @@ var effectCallees = []string{
 
 var effectCalleeSuffixes = []string{
 	"afero.Fs.OpenFile", "afero.Fs.Create", "afero.Fs.Remove", "afero.Fs.RemoveAll", "afero.Fs.Rename", "afero.Fs.Stat", "afero.Fs.MkdirAll", "afero.Fs.Open",
-	"afero.File.WriteAt", "afero.File.ReadAt", "afero.File.Truncate", "afero.File.Sync", "afero.File.Write", "afero.File.Stat",
+	"io.WriterAt.WriteAt", "afero.File.WriteAt", "afero.File.ReadAt", "afero.File.Truncate", "afero.File.Sync", "afero.File.Write", "afero.File.Stat",
 	"go-immutable-radix.Tree.Txn", "go-immutable-radix.Txn.Insert", "go-immutable-radix.Txn.Delete", "go-immutable-radix.Txn.Commit", "go-immutable-radix.Node.Walk",
 	"go-immutable-radix.Tree.Insert", "go-immutable-radix.Tree.Delete", "go-immutable-radix.Tree.Get",
 }
